@@ -590,6 +590,11 @@ def minimize_lbfgsb(
             else:
                 f0, f0_old, grad, G = update_fun_def(x, f0, f0_old, grad, X, G)
 
+                # We must check if the updated G satisfy the strong wolfe condition.
+                # This is done before testing the stop criteria, so that the history
+                # returned when one of them is met has been filtered as well.
+                X, G = make_X_and_G_respect_strong_wolfe(X, G, eps_SY, logger=logger)
+
                 # Check the stop criteria in the same order as without update function:
                 # minimum objective function value
                 if is_f0_target_reached(f0 / sf.scaling_factor, _ftarget, istate):
@@ -598,9 +603,6 @@ def minimize_lbfgsb(
                 # then minimum relative change in the objective function
                 elif is_f0_min_change_reached(f0, f0_old, ftol, istate):
                     break  # the while loop
-
-                # We must check if the updated G satisfy the strong wolfe condition
-                X, G = make_X_and_G_respect_strong_wolfe(X, G, eps_SY, logger=logger)
 
             mats = update_lbfgs_matrices(
                 x.copy(),  # copy otherwise x might be changed in X when updated
